@@ -16,7 +16,7 @@ import sim as simlib
 from props.c05 import CFG, split_messages
 
 FINDING_SILENT = "C08-closing-waits-for-silent-peer"
-CAUSES = ["local", "dpr", "eof", "refused", "eof-setup", "local-silent", "dpr-bad", "reset", "reset"]
+CAUSES = ["local", "dpr", "eof", "refused", "eof-setup", "local-silent", "dpr-bad", "reset", "eof-partial", "eof-partial"]
 POINTS = ["idle", "queued-out", "queued-in", "busy"]
 LIB_THREADS = ("psm_thread", "transport_layer_thread", "recv_message_monitor")
 
@@ -126,6 +126,15 @@ def scenario(seed, cause, point, consumer, lines, restart=True):
                     except BaseException as e:
                         obs["close_exc"] = type(e).__name__
                 elif cause == "eof":
+                    sock.eof = True
+                elif cause == "eof-partial":
+                    # the peer dies in the middle of a message: part of it has arrived, then the disconnect
+                    m = DiameterRequest(command_code=316, application_id=16777251)
+                    m.append(UserNameAVP("partial" + "z" * 200))
+                    raw = m.dump()
+                    sock.inbox.append(raw[:rng.choice([1, 3, 19, 20, 21, 100, len(raw) - 1])])
+                    for _ in range(rng.randint(0, 30)):
+                        mods.time.sleep(0.01)
                     sock.eof = True
                 elif cause == "reset":
                     sock.recv_error = ConnectionResetError(104, "Connection reset by peer")
